@@ -308,15 +308,8 @@ class UnionMarshaller(AbstractMarshaller[UnionT], tp.Generic[UnionT]):
             return val
 
         for routine in self.ordered_routines:
-            with contextlib.suppress(
-                ValueError,
-                TypeError,
-                SyntaxError,
-                AttributeError,
-                ArithmeticError,
-                OSError,
-                re.error,
-            ):
+            # Whichever error a member uses to reject the input, the next member gets its turn.
+            with contextlib.suppress(Exception):
                 unmarshalled = routine(val)
                 return unmarshalled
 
